@@ -1,5 +1,6 @@
 import RtenVerif.Lemmas.TensorBoundsOverlapM
 import RtenVerif.Lemmas.TensorBoundsSplit
+import RtenVerif.Lemmas.TensorBoundsViews
 import RtenVerif.Props.C08
 
 /-!
@@ -512,5 +513,296 @@ example : M.tryFromData [2, 3] 6 = .ok [(2, 3), (3, 1)] ∧
     M.fromDataWithStrides [(3, 2), (4, 8)] 29 = .ok [(3, 2), (4, 8)] ∧
     M.fromSliceWithStrides [(9223372036854775807, 0)] 1 = .ok [(9223372036854775807, 0)] ∧
     M.fromSliceWithStrides [(9223372036854775808, 0)] 1 = .error .tooShort := by decide
+
+/-! ## T2 (continued): views and owned tensors that grow or shrink -/
+
+/-- The view computed by `slice_axis` before the storage range assertion. -/
+def sliceView (dims : List (Nat × Nat)) (axis s e : Nat) : View :=
+  if len (setSize dims axis (e - s)) = 0 then ⟨0, 0, setSize dims axis (e - s)⟩
+  else ⟨s * strideAt (setSize dims axis (e - s)) axis,
+    s * strideAt (setSize dims axis (e - s)) axis + minDataLen (setSize dims axis (e - s)),
+    setSize dims axis (e - s)⟩
+
+theorem sliceAxis_unfold (dims : List (Nat × Nat)) (n axis s e : Nat) :
+    sliceAxis dims n axis s e =
+      if axis < dims.length ∧ s ≤ e ∧ e ≤ sizeAt dims axis then
+        if rangeValid (sliceView dims axis s e) n then some (sliceView dims axis s e) else none
+      else none := rfl
+
+theorem sliceView_dims (dims : List (Nat × Nat)) (axis s e : Nat) :
+    (sliceView dims axis s e).dims = setSize dims axis (e - s) := by
+  unfold sliceView; split <;> rfl
+
+/-- **C06.T2h** `slice_axis` / `slice_axis_mut` (`MutLayout::slice_axis` + `Storage::slice(_mut)`):
+whenever the call succeeds on a tensor whose storage has `n` elements, every valid index of the
+slice addresses an element inside the slice's own storage range, that range lies inside the
+parent's storage, the element is one the parent addresses too (`< min_data_len` of the parent),
+and if the parent passed the overlap check the slice maps distinct indices to distinct
+elements (so a `slice_axis_mut` view never aliases itself). -/
+theorem c06_T2_sliceAxis {dims : List (Nat × Nat)} {n axis s e : Nat} {v : View}
+    (h : sliceAxis dims n axis s e = some v) :
+    v.stop ≤ n ∧
+    (∀ j, ValidIdx v.dims j →
+      v.start + offset v.dims j < v.stop ∧ v.start + offset v.dims j < minDataLen dims) ∧
+    (mayOverlap dims = false → ∀ j j', ValidIdx v.dims j → ValidIdx v.dims j' →
+      offset v.dims j = offset v.dims j' → j = j') := by
+  rw [sliceAxis_unfold] at h
+  split at h
+  · next hc =>
+    obtain ⟨hax, hse, hes⟩ := hc
+    split at h
+    · next hrv =>
+      have hv := Option.some.inj h
+      subst hv
+      simp only [rangeValid, Bool.and_eq_true, decide_eq_true_eq] at hrv
+      have hle : s + (e - s) ≤ sizeAt dims axis := by omega
+      refine ⟨hrv.2, ?_, ?_⟩
+      · intro j hj
+        rw [sliceView_dims] at hj
+        have hne := valid_len_pos hj
+        obtain ⟨vj, oj⟩ := embedShift dims axis s (e - s) j hax hle hj
+        have ht := c06_T1_offset_lt_min_data_len _ _ hj
+        have hp := c06_T1_offset_lt_min_data_len _ _ vj
+        rw [oj] at hp
+        unfold sliceView
+        rw [if_neg hne, strideAt_setSize]
+        refine ⟨?_, ?_⟩
+        · show s * strideAt dims axis + offset (setSize dims axis (e - s)) j <
+            s * strideAt dims axis + minDataLen (setSize dims axis (e - s))
+          exact Nat.add_lt_add_left ht _
+        · show s * strideAt dims axis + offset (setSize dims axis (e - s)) j < minDataLen dims
+          exact hp
+      · intro hno j j' hj hj' heq
+        rw [sliceView_dims] at hj hj' heq
+        exact setSize_injective dims axis s (e - s) hax hle
+          (fun a b ha hb hab => c08_no_overlap_injective dims a b hno ha hb hab) j j' hj hj' heq
+    · cases h
+  · cases h
+
+/-- **C06.T2i** `try_broadcast` / `broadcast`: every valid index of the broadcast layout maps to
+an element the parent addresses (`< min_data_len` of the parent), hence inside the storage of an
+accepted parent.  (The broadcast view shares the parent's whole storage and its type,
+`TensorBase<ViewData, _>`, is immutable.) -/
+theorem c06_T2_broadcast {dims b : List (Nat × Nat)} {target : List Nat}
+    (h : broadcast dims target = some b) {idx : List Nat} (hv : ValidIdx b idx) :
+    offset b idx < minDataLen dims ∧ prodNZ (shapeOf b) ≤ isizeMax := by
+  obtain ⟨hmo, hz⟩ := broadcast_spec h
+  have hb := valid_hasZero hv
+  have hd : hasZero dims = false := by
+    cases hd : hasZero dims
+    · rfl
+    · rw [hz hd] at hb; cases hb
+  refine ⟨?_, ?_⟩
+  · unfold minDataLen
+    rw [hd]
+    have := valid_offset_le hv
+    simp only [Bool.false_eq_true, if_false]
+    omega
+  · -- the `checked_shape_len` guard of `broadcast`
+    unfold broadcast at h
+    dsimp only at h
+    split at h
+    · split at h
+      · next hlen hok =>
+        simp only [Bool.and_eq_true] at hok
+        cases h
+        have hsl := hok.2
+        rw [checkedShapeLen_eq] at hsl
+        have hfit : prodNZ target ≤ isizeMax := by
+          by_cases hp : prodNZ target ≤ isizeMax
+          · exact hp
+          · simp [hp] at hsl
+        have hshape : shapeOf (List.map (fun s => (s, 0)) (List.take (target.length - dims.length) target) ++
+            List.map (fun p => (p.2, if p.1.1 == 1 && decide (p.2 > 1) then 0 else p.1.2))
+              (dims.zip (List.drop (target.length - dims.length) target))) = target := by
+          simp only [shapeOf, List.map_append, List.map_map, Function.comp_def]
+          have h1 : List.map (fun x : Nat => x) (List.take (target.length - dims.length) target) =
+              List.take (target.length - dims.length) target := List.map_id' _
+          have h2 : List.map (fun x : (Nat × Nat) × Nat => x.2)
+              (dims.zip (List.drop (target.length - dims.length) target)) =
+              List.drop (target.length - dims.length) target :=
+            List.map_snd_zip (by rw [List.length_drop]; omega)
+          rw [h1, h2, List.take_append_drop]
+        rw [hshape]; exact hfit
+      · cases h
+    · cases h
+
+/-- Non-vacuity: a `[3,1]` column broadcast to `[2,3,4]`. -/
+example : broadcast [(3, 1), (1, 1)] [2, 3, 4] = some [(2, 0), (3, 1), (4, 0)] ∧
+    ValidIdx [(2, 0), (3, 1), (4, 0)] [1, 2, 3] ∧ minDataLen [(3, 1), (1, 1)] = 3 := by
+  refine ⟨by decide, .cons (by omega) (.cons (by omega) (.cons (by omega) .nil)), by decide⟩
+
+/-- **C06.T2j** a tensor with mutable storage is never genuinely broadcast: in a non-empty
+accepted mutable layout every dimension with more than one entry has a non-zero stride.
+(`broadcast` itself only returns immutable views; the only way to pair a zero-stride layout
+with mutable storage is through the constructors, which run the overlap check.) -/
+theorem c06_T2_mutable_not_broadcast {dims : List (Nat × Nat)} {n : Nat}
+    (acc : Accepted dims n true) (hne : hasZero dims = false) (k : Nat) (hk : k < dims.length)
+    (hs : 1 < sizeAt dims k) : strideAt dims k ≠ 0 := by
+  obtain ⟨v0, v1, o0, o1, hneq⟩ := zeros_unit dims k hne hk hs
+  intro h0
+  exact hneq (c08_no_overlap_injective dims _ _ (acc.no_overlap rfl) v0 v1 (by rw [o0, o1, h0]))
+
+/-- The `assert!(!view.is_broadcast())` of `LanesMut` / `AxisIterMut` / `AxisChunksMut`: a
+non-empty layout that passes it has no zero stride at all. -/
+theorem c06_T2_is_broadcast_assert {dims : List (Nat × Nat)} (h : isBroadcast dims = false)
+    (hne : len dims ≠ 0) : ∀ d ∈ dims, d.2 ≠ 0 := by
+  intro d hd h0
+  unfold isBroadcast at h
+  have h1 : (len dims != 0) = true := by simpa using hne
+  have h2 : dims.any (fun d => d.2 == 0) = true := List.any_eq_true.mpr ⟨d, hd, by simpa using h0⟩
+  rw [h1, h2] at h
+  cases h
+
+/-- **C06.T2k** `has_capacity` / `append` (via `expanded_layout`): whenever `append` succeeds, the
+grown tensor satisfies the constructor invariant with its new storage length, which still
+fits the capacity; in particular all its indices are in bounds and do not alias
+(`c06_T2_in_bounds`, `c06_T2_no_alias`), and the block written by `append`
+(`slice_axis_mut(axis, old..new)`) is covered by `c06_T2_sliceAxis`. -/
+theorem c06_T2_append {t t' : Owned} {axis : Nat} {other : List (Nat × Nat)}
+    (h : append t axis other = .ok t') (hcap : t.dataLen ≤ t.cap) :
+    Accepted t'.dims t'.dataLen true ∧ t'.dataLen ≤ t'.cap ∧ t'.cap = t.cap ∧
+    t'.dims = setSize t.dims axis (sizeAt t.dims axis + sizeAt other axis) := by
+  unfold append at h
+  split at h
+  · cases h
+  · split at h
+    · cases h
+    · split at h
+      · cases h
+      · next nl hnl =>
+        cases h
+        unfold expandedLayout at hnl
+        split at hnl
+        · cases hnl
+        · next m hm =>
+          split at hnl
+          · next hc =>
+            cases hnl
+            have hm' := hm
+            rw [checkedMinDataLen_eq] at hm'
+            split at hm'
+            · cases hm'
+              refine ⟨accepted_of_checked (by simp [hm]) (Nat.le_max_right _ _) (fun _ => hc.2),
+                ?_, rfl, rfl⟩
+              exact Nat.max_le.mpr ⟨hcap, hc.1⟩
+            · cases hm'
+          · cases hnl
+
+/-- Non-vacuity: a `with_capacity([3,2], 0)` tensor grows by two rows; a third row is refused. -/
+example : append ⟨[(0, 2), (2, 1)], 0, 6⟩ 0 [(2, 0), (2, 0)] = .ok ⟨[(2, 2), (2, 1)], 4, 6⟩ ∧
+    append ⟨[(2, 2), (2, 1)], 4, 6⟩ 0 [(2, 0), (2, 0)] = .error .noCapacity ∧
+    append ⟨[(2, 2), (2, 1)], 4, 6⟩ 0 [(1, 0), (3, 0)] = .error .shapeMismatch := by decide
+
+theorem clipDim_unfold (t : Owned) (dim s e : Nat) :
+    clipDim t dim s e =
+      if dim < t.dims.length ∧ s ≤ e ∧ e ≤ sizeAt t.dims dim then
+        if (if len (setSize t.dims dim (e - s)) = 0 then 0
+              else s * strideAt (setSize t.dims dim (e - s)) dim) +
+            (if len (setSize t.dims dim (e - s)) = 0 then 0
+              else minDataLen (setSize t.dims dim (e - s))) ≤ t.dataLen then
+          some ⟨setSize t.dims dim (e - s),
+            min t.dataLen (if len (setSize t.dims dim (e - s)) = 0 then 0
+              else minDataLen (setSize t.dims dim (e - s))), t.cap⟩
+        else none
+      else none := rfl
+
+/-- **C06.T2l** `clip_dim`: after a successful call every valid index of the clipped layout is
+below the new storage length, and if the tensor was accepted (passed the overlap check) the
+clipped layout still maps distinct indices to distinct elements. -/
+theorem c06_T2_clipDim {t t' : Owned} {dim s e : Nat} (h : clipDim t dim s e = some t') :
+    (∀ j, ValidIdx t'.dims j → offset t'.dims j < t'.dataLen) ∧
+    (mayOverlap t.dims = false → ∀ j j', ValidIdx t'.dims j → ValidIdx t'.dims j' →
+      offset t'.dims j = offset t'.dims j' → j = j') := by
+  rw [clipDim_unfold] at h
+  by_cases hc : dim < t.dims.length ∧ s ≤ e ∧ e ≤ sizeAt t.dims dim
+  · rw [if_pos hc] at h
+    obtain ⟨hax, hse, hes⟩ := hc
+    have hinj : mayOverlap t.dims = false → ∀ j j', ValidIdx (setSize t.dims dim (e - s)) j →
+        ValidIdx (setSize t.dims dim (e - s)) j' →
+        offset (setSize t.dims dim (e - s)) j = offset (setSize t.dims dim (e - s)) j' → j = j' :=
+      fun hno j j' hj hj' heq => setSize_injective t.dims dim s (e - s) hax (by omega)
+        (fun a b ha hb hab => c08_no_overlap_injective t.dims a b hno ha hb hab) j j' hj hj' heq
+    by_cases hlen : len (setSize t.dims dim (e - s)) = 0
+    · simp only [if_pos hlen] at h
+      split at h
+      · have ht := Option.some.inj h
+        subst ht
+        exact ⟨fun j hj => absurd hlen (valid_len_pos hj), hinj⟩
+      · cases h
+    · simp only [if_neg hlen] at h
+      split at h
+      · next hfit =>
+        have ht := Option.some.inj h
+        subst ht
+        refine ⟨fun j hj => ?_, hinj⟩
+        have hj' : ValidIdx (setSize t.dims dim (e - s)) j := hj
+        have hlt := c06_T1_offset_lt_min_data_len _ _ hj'
+        show offset (setSize t.dims dim (e - s)) j <
+          min t.dataLen (minDataLen (setSize t.dims dim (e - s)))
+        exact Nat.lt_min.mpr ⟨by omega, hlt⟩
+      · cases h
+  · rw [if_neg hc] at h
+    cases h
+
+/-! ## T3 (continued): `expanded_layout` on machine integers -/
+
+theorem setSize_toN : ∀ (d : List (M.U × M.U)) (axis : Nat) (n : M.U),
+    M.toN (M.setSize d axis n) = setSize (M.toN d) axis n.toNat := by
+  intro d
+  induction d with
+  | nil => intro axis n; rfl
+  | cons x xs ih =>
+    obtain ⟨size, stride⟩ := x
+    intro axis n
+    cases axis with
+    | zero => rfl
+    | succ a => simp only [M.setSize, M.toN_cons, setSize, ih]
+
+/-- **C06.T3j** `expanded_layout` (the decision behind `has_capacity` and `append`) on machine
+integers accepts exactly what the ideal model accepts — for *every* requested size. -/
+theorem c06_T3_expandedLayout (d : List (M.U × M.U)) (cap : M.U) (axis : Nat) (ns : M.U) :
+    (M.expandedLayout d cap axis ns).map M.toN =
+      expandedLayout (M.toN d) cap.toNat axis ns.toNat := by
+  unfold M.expandedLayout expandedLayout
+  have hc := M.checkedMinDataLen_eq (M.setSize d axis ns)
+  rw [setSize_toN] at hc
+  cases hk : M.checkedMinDataLen (M.setSize d axis ns) with
+  | none => rw [hk] at hc; rw [← hc]; rfl
+  | some k =>
+    rw [hk] at hc
+    rw [← hc]
+    simp only [Option.map_some]
+    have hnone : ¬ (checkedMinDataLen (setSize (M.toN d) axis ns.toNat)).isNone = true := by
+      rw [← hc]; simp
+    obtain ⟨h1, h2⟩ := checkedMinDataLen_fits hnone
+    have hov := M.mayOverlap_eq (M.setSize d axis ns) (by rw [setSize_toN]; exact h1)
+      (by rw [setSize_toN]; exact h2)
+    rw [setSize_toN] at hov
+    by_cases hcnd : k ≤ cap ∧ M.mayOverlap (M.setSize d axis ns) = false
+    · have : k.toNat ≤ cap.toNat ∧ mayOverlap (setSize (M.toN d) axis ns.toNat) = false :=
+        ⟨UInt64.le_iff_toNat_le.mp hcnd.1, by rw [← hov]; exact hcnd.2⟩
+      rw [if_pos hcnd, if_pos this]
+      simp only [Option.map_some, setSize_toN]
+    · have : ¬ (k.toNat ≤ cap.toNat ∧ mayOverlap (setSize (M.toN d) axis ns.toNat) = false) :=
+        fun h => hcnd ⟨UInt64.le_iff_toNat_le.mpr h.1, by rw [hov]; exact h.2⟩
+      rw [if_neg hcnd, if_neg this]
+      rfl
+
+/-- **C06.T3 was false for `expanded_layout` before fix 0049079**: an empty `[0, 2]` tensor
+with strides `[2^63, 1]` (accepted: it needs no storage) and capacity 8 "has capacity" for 3
+rows on wrap-around integers (`2·2^63` wraps to 0, machine `min_data_len` = 2) although the
+ideal requirement is `2^64 + 2` elements; index `[1, 0]` of the grown layout maps to offset
+`2^63`.  The fixed `expanded_layout` refuses.  Replayed on the real crate by the harness
+(`a … shape=0,2 strides=9223372036854775808,1 len=0 cap=8 ops=hc:0,3;ap:0/3,2`). -/
+theorem c06_T3_old_false_append :
+    M.fromDataWithStrides [(0, 9223372036854775808), (2, 1)] 0 =
+      .ok [(0, 9223372036854775808), (2, 1)] ∧
+    M.Old.expandedLayout [(0, 9223372036854775808), (2, 1)] 8 0 3 =
+      some [(3, 9223372036854775808), (2, 1)] ∧
+    minDataLen (M.toN [(3, 9223372036854775808), (2, 1)]) = 18446744073709551618 ∧
+    M.offsetOf [(3, 9223372036854775808), (2, 1)] [1, 0] = some 9223372036854775808 ∧
+    M.expandedLayout [(0, 9223372036854775808), (2, 1)] 8 0 3 = none := by
+  decide
 
 end RtenVerif.TensorBounds
